@@ -411,6 +411,15 @@ func init() {
 	reg("math.Float64frombits", func(fr *frame, a []Value) Value {
 		return fr.in.ctx.FBits(tm(a[0]))
 	})
+	reg("math.Copysign", func(fr *frame, a []Value) Value {
+		c := fr.in.ctx
+		x, y := tm(a[0]), tm(a[1])
+		if x.IsConst() && y.IsConst() {
+			return c.F64C(math.Copysign(x.Float(), y.Float()))
+		}
+		neg := c.FLt(y, c.F64C(0)) // sign of y (-0 and NaN not distinguished for symbolic y)
+		return c.Ite(neg, c.FNeg(c.FAbs(x)), c.FAbs(x))
+	})
 	reg("math.Signbit", func(fr *frame, a []Value) Value {
 		c := fr.in.ctx
 		x := tm(a[0])
